@@ -330,6 +330,96 @@ def zckdl_family(ck, rnd, tier, bd, wd, trace, owner):
     return len(faults)
 
 
+# ---------------------------------------------------------------- context life cycle (Ctx.tla)
+def ctx_family(ck, rnd, tier, wd):
+    """TLC (MC_Ctx) enumerates the call histories on one context; each is run on the real library (faults armed with
+    shim_fault_next for the calls marked F) and judged by Trace_Ctx twice: with Strict = FALSE only the C12-class
+    obligation counts (a call during which a system call was made to fail does not report success) - a rejection is a
+    violation; with Strict = TRUE the whole life-cycle contract - a rejection is recorded as specification drift."""
+    r = common.tlc("MC_Ctx", "MC_Ctx.cfg", workers=1, timeout=600, extra=(), env={"X": "1"})
+    ck.require_ok("MC_Ctx", r); ck.add_tlc("MC_Ctx (history generator)", r, "MaxOps=3")
+    hists = common.tlc_printed_json(r, "BEH")
+    if len(hists) < 500:
+        raise Broken("MC_Ctx printed only %d histories" % len(hists))
+    if tier == "thorough":
+        cfg4 = os.path.join(wd, "MC_Ctx4.cfg"); open(cfg4, "w").write(open(os.path.join(common.SPEC, "MC_Ctx.cfg")).read().replace("MaxOps = 3", "MaxOps = 4"))
+        r4 = common.tlc("MC_Ctx", cfg4, workers=1, timeout=900); ck.require_ok("MC_Ctx/4", r4); ck.add_tlc("MC_Ctx (MaxOps=4)", r4)
+        hists += common.tlc_printed_json(r4, "BEH")
+    chunks = [b""] + [corpus.text(rnd, n) for n in (300, 200, 500)]
+    good = ref.build_file(chunks, comp_type=2, hash_type=1, chunk_hash_type=3, level=3)[0]
+    gp = os.path.join(wd, "ctx-good.zck"); open(gp, "wb").write(good)
+    data = corpus.text(rnd, 100).hex()
+    W = {"optcomp": (["ioption 0 100 0"], "W", "ioption"), "optval": (["ioption 0 3 77"], "R", "ioption"), "write": (["write 0 hex:" + data], "W", "write"),
+         "writeF": (["shim_fault_next w -2 5", "write 0 hex:" + data], "W", "write"), "endchunk": (["end_chunk 0"], "W", "end_chunk"),
+         "close": (["close 0"], "X", "close"), "closeF": (["shim_fault_next w 0 28", "close 0"], "X", "close"), "read": (["readx 0 10"], "R", "read"),
+         "clear": (["clear_error 0"], "-", "clear_error"), "readF": (["shim_fault_next r 0 5", "readx 0 50"], "R", "read"),
+         "validate": (["validate_checksums 0"], "R", "validate_checksums"), "validateF": (["shim_fault_next r 0 5", "validate_checksums 0"], "R", "validate_checksums")}
+    cases = []
+    for hi, h in enumerate(hists):
+        cid = "x%d" % hi
+        L = ["case %s 30" % cid, "ctx 0"]
+        if h["mode"] == "write":
+            L += ["open 0 %s rwt" % os.path.join(wd, cid + ".zck"), "init_write 0 0"]
+            if hi % 2: L += ["ioption 0 100 0"]          # every other history without compression (a write reaches the temporary file at once)
+        else:
+            L += ["open 0 %s r" % gp, "init_read 0 0"]
+        for o in h["ops"]:
+            if o == "read" and h["mode"] == "read": L += ["readx 0 50"]
+            else: L += W[o][0]
+        L += ["shim_clear", "end"]
+        cases.append((cid, h, "\n".join(L) + "\n"))
+    evs = common.by_case([e for part in common.run_driver_parallel(["".join(c[2] for c in cases[k::12]) for k in range(12)], "plain", timeout=1200) for e in part])
+    trace = []; owner = []
+    for (cid, h, scr) in cases:
+        ce = evs.get(cid, [])
+        if any(e["op"] in ("Crash", "Hang") for e in ce):
+            trace.append({"op": "reset"}); owner.append(cid); trace.append({"op": "Crash"}); owner.append(cid); continue
+        trace.append({"op": "reset"}); owner.append(cid)
+        opn = [e for e in ce if e["op"] in ("init_write", "init_read")]
+        if not opn: continue
+        trace.append({"op": "open", "m": h["mode"], "ok": opn[0]["ret"] == 1, "es": opn[0].get("err", 0)}); owner.append(cid)
+        fired = opn[0].get("firederr", 0)
+        calls = [e for e in ce if e["op"] in ("ioption", "write", "end_chunk", "close", "read", "clear_error", "validate_checksums")]
+        pre = 1 if (h["mode"] == "write" and int(cid[1:]) % 2) else 0          # the configuration call before the history proper
+        for e in calls[:pre]:
+            trace.append({"op": "call", "cls": "W", "ok": e["ret"] == 1, "es": e.get("err", 0), "firedErr": False, "starts": False, "late": True, "ends": False}); owner.append(cid)
+        for o, e in zip(h["ops"], calls[pre:]):
+            es2 = e.get("err", 0); fe = e.get("firederr", fired) > fired; fired = e.get("firederr", fired)
+            if o == "clear":
+                trace.append({"op": "clear", "ok": e["ret"] == 1, "es": es2}); owner.append(cid); continue
+            kind = W[o][2]; cls = W[o][1]
+            ok = {"ioption": e["ret"] == 1, "write": e["ret"] == e.get("n", -2) and e["ret"] >= 0, "end_chunk": e["ret"] >= 0, "close": e["ret"] == 1,
+                  "read": e["ret"] >= 0, "validate_checksums": e["ret"] == 1}[kind]
+            trace.append({"op": "call", "cls": cls, "ok": bool(ok), "es": es2, "firedErr": bool(fe), "starts": kind in ("write", "end_chunk", "close"), "late": o == "optcomp", "ends": kind == "close",
+                          "what": o}); owner.append(cid)
+        ck.case(("ctx", h["mode"], tuple(h["ops"]), int(cid[1:]) % 2))
+    scripts_by = {c[0]: (c[2], "context history %s %s" % (c[1]["mode"], "/".join(c[1]["ops"])), None) for c in cases}
+    nfired = sum(1 for t in trace if t.get("firedErr"))
+    if nfired < 50:
+        raise Broken("only %d armed faults fired in the context histories" % nfired)
+    ck.extra["ctx_histories"] = len(cases); ck.extra["ctx_calls_with_fired_fault"] = nfired
+    validate_segments(ck, "C12", trace, owner, wd, scripts_by=scripts_by, module="Trace_Ctx", cfg="Trace_Ctx.cfg", start_ops=("reset",))
+    # the whole life-cycle contract: deviations are specification drift (beyond the listed properties), recorded only
+    drift = Check.__new__(Check); drift.__dict__.update({"violations": [], "states": 0, "transitions": 0, "traces": 0, "models": [], "prop": "C12"})
+    drift.violation = lambda what, script_text=None, extra=None: drift.violations.append(what)
+    validate_segments(drift, "C12", trace, owner, wd, scripts_by=scripts_by, module="Trace_Ctx", cfg="Trace_Ctx_strict.cfg", start_ops=("reset",))
+    ck.states += drift.states; ck.traces += drift.traces
+    # negative control: one call during which a fault fired, recorded as a success, must be rejected
+    for i, t in enumerate(trace):
+        if t.get("firedErr"):
+            j = i
+            while trace[j]["op"] != "reset": j -= 1
+            seg = [dict(x) for x in trace[j:i + 1]]; seg[-1]["ok"] = True
+            pneg = os.path.join(wd, "ctxneg.ndjson"); common.write_ndjson(pneg, seg)
+            okn, _ = common.validate_trace("Trace_Ctx", "Trace_Ctx.cfg", pneg)
+            if okn:
+                raise Broken("negative control: a successful call whose system call was made to fail was accepted by Trace_Ctx")
+            break
+    ck.extra["lifecycle_contract_deviations"] = [v[:300] for v in drift.violations[:5]]
+    ck.extra["lifecycle_contract_deviation_count"] = len(drift.violations)
+    return len(cases)
+
+
 def run(tier):
     ck = Check("C12", tier, level="model_checking")
     rnd = random.Random(common.seed())
@@ -340,9 +430,10 @@ def run(tier):
     nw = writer_family(ck, rnd, tier, wd, tw, ow, sb)
     nt = tool_family(ck, rnd, tier, bd, wd, tw, ow)
     nz = zckdl_family(ck, rnd, tier, bd, wd, tw, ow)
+    nc = ctx_family(ck, rnd, tier, wd)
     nr = reader_family(ck, rnd, tier, wd, tr, orr, sb)
     nd = delta_family(ck, rnd, tier, wd, td, od, sb)
-    ck.extra["single_faults"] = {"writer": nw, "tools": nt, "zckdl": nz, "reader_validate": nr, "copy_download": nd}
+    ck.extra["single_faults"] = {"writer": nw, "tools": nt, "zckdl": nz, "context_histories": nc, "reader_validate": nr, "copy_download": nd}
     ck.sample({"writer_case": tw[0].get("case"), "events": tw[:6]})
     ck.sample({"reader_case": [t for t in tr[:6]]})
     validate_segments(ck, "C12", tw, ow, wd, scripts_by=sb, module="Trace_Writer", cfg="Trace_Writer.cfg", start_ops=("wstart",))
